@@ -382,7 +382,8 @@ MUTATIONS = ["lfcr", "te_empty", "value_trailing_ctl", "chunk_size_lf", "nonutf8
              "lf_for_crlf", "cr_only", "obs_fold", "ctl_value", "ctl_name", "ctl_target", "ws_before_colon", "ws_name_lead",
              "no_colon", "chunk_plus", "chunk_0x", "chunk_space", "chunk_empty", "chunk_big", "chunk_ext_lf", "chunk_no_crlf",
              "bad_trailer", "no_host", "dup_host", "empty_host", "byte_flip", "byte_insert", "byte_delete", "truncate",
-             "bad_version", "bad_method", "two_spaces", "kelvin_te", "long_line", "many_headers", "abs_bad_url", "connect_bad"]
+             "bad_version", "bad_method", "two_spaces", "kelvin_te", "long_line", "many_headers", "abs_bad_url", "connect_bad",
+             "start_line_ws"]
 
 
 def mutate(rng, data, kind=None):
@@ -394,6 +395,25 @@ def mutate(rng, data, kind=None):
         i = d.find(b"\r\n")
         return d[:i + 2] + extra + d[i + 2:] if i >= 0 else d + extra
 
+    if kind == "start_line_ws":
+        # a control byte that Python's str.split() treats as whitespace (LF VT FF CR FS GS RS US, also HT) inside or
+        # around a start line — request line or status line, of any message of the stream: in front of it, in place
+        # of / next to one of its spaces, or at its end
+        starts = [i for i, l in enumerate(lines) if b"HTTP/" in l]
+        if not starts: return d, kind
+        i = rng.choice(starts)
+        l = lines[i]
+        c = bytes([rng.choice([10, 10, 10, 11, 12, 13, 28, 29, 30, 31, 9])])
+        sp = [j for j in range(len(l)) if l[j:j + 1] == b" "]
+        how = rng.choice(["lead", "lead", "replace", "before", "after", "end"])
+        if how == "lead" or not sp:
+            l = c + l
+        elif how == "end":
+            l = l + c
+        else:
+            j = rng.choice(sp)
+            l = l[:j] + c + l[j + 1:] if how == "replace" else (l[:j] + c + l[j:] if how == "before" else l[:j + 1] + c + l[j + 1:])
+        return b"\r\n".join(lines[:i] + [l] + lines[i + 1:]), kind
     if kind == "lfcr":
         # LF CR instead of CR LF at some line ends (a lax parser sees an LF-terminated line and a stray CR)
         idx = [i for i in range(len(d) - 1) if d[i:i + 2] == b"\r\n"]
